@@ -119,6 +119,7 @@ fn pick_functions(rng: &mut Rng, focus: &str) -> Vec<&'static FnDesc> {
         .filter(|d| match focus {
             "C14" => true,
             "C03" => !d.scope_thread && d.ttl.is_none() && d.max_memory.is_none(),
+            "C05" => !d.scope_thread && d.max_memory.is_some() && d.sized && d.limit.is_none() && d.ttl.is_none() && !d.has_cache_if && !d.has_invalidate_on && !d.is_result,
             "C01" => !d.scope_thread,
             "C13" => !d.scope_thread && d.ttl.is_none() && d.max_memory.is_none(),
             "C09" => !d.scope_thread && d.is_result && d.ttl.is_none() && d.max_memory.is_none(),
@@ -165,7 +166,14 @@ fn gen_scenario(seed: u64, index: u64, focus: &str, jitter: bool) -> Scenario {
         let cap = d.limit.unwrap_or(2).min(5);
         // C03/C09: bounded caches take part with no more distinct keys than their limit, so that
         // nothing can be evicted and "computed once" still applies
-        let n = if (matches!(focus, "C03" | "C09" | "C13") || (focus == "C14" && index % 2 == 0)) && d.limit.is_some() { cap.min(d.nslots as usize).max(1) } else { (cap + 1 + rng.usize(2)).min(d.nslots as usize).max(1) };
+        let n = if (matches!(focus, "C03" | "C09" | "C13") || (focus == "C14" && index % 2 == 0)) && d.limit.is_some() {
+            cap.min(d.nslots as usize).max(1)
+        } else if focus == "C05" {
+            // enough distinct keys for real memory pressure (values are 40-100 bytes)
+            (d.max_memory.unwrap_or(300) / 60 + 2 + rng.usize(3)).min(d.nslots as usize).min(40).max(1)
+        } else {
+            (cap + 1 + rng.usize(2)).min(d.nslots as usize).max(1)
+        };
         let off = if d.nslots as usize > n + 8 { rng.usize(d.nslots as usize - n - 8) } else { 0 };
         fns.push(FnCtx { d, slots: (0..n).map(|i| (off + i) as u32).collect(), keymap: BTreeMap::new(), fp: BTreeMap::new() });
     }
@@ -182,7 +190,7 @@ fn gen_scenario(seed: u64, index: u64, focus: &str, jitter: bool) -> Scenario {
             let r = rng.usize(100);
             let f = rng.usize(fns.len());
             let (w_invw, w_invall, w_group, w_stats, w_adv) = match focus {
-                "C03" | "C14" | "C09" | "C07" | "C08" => (0, 0, 0, 2, 0),
+                "C03" | "C14" | "C09" | "C07" | "C08" | "C05" => (0, 0, 0, 2, 0),
                 "C01" => (8, 3, 6, 2, if any_ttl { 5 } else { 0 }),
                 "C13" => (22, 8, 0, 2, 0),
                 "C15" => (6, 3, 5, 6, if any_ttl { 5 } else { 0 }),
@@ -247,7 +255,7 @@ fn gen_scenario(seed: u64, index: u64, focus: &str, jitter: bool) -> Scenario {
             let err = fns[f].d.is_result && rng.chance(1, 3);
             // invalidate_on verdict scripted per call (only functions that have one consult it)
             let stale = fns[f].d.has_invalidate_on && rng.chance(1, 3);
-            let big = !err && fns[f].d.max_memory.is_some() && fns[f].d.sized && rng.chance(1, 7);
+            let big = focus != "C05" && !err && fns[f].d.max_memory.is_some() && fns[f].d.sized && rng.chance(1, 7);
             p.push(Op::Call { f, slot, err, stale, big });
         }
         progs.push(p);
@@ -571,6 +579,7 @@ fn run_scenario(rep: &mut Report, sc: &mut Scenario, seed: u64, mode: &str, focu
         let unique = focus == "C12" || focus == "C01";
         progs.push(Box::new(move || exec_prog(t, &p, &fnsv, &sh, nthreads, unique)));
     }
+    let unique_values = focus == "C12" || focus == "C01";
     rep.count("CONC", "schedules", 1);
     rep.count("CONC", &format!("schedules_{}", mode), 1);
     let (deadlock, stuck, trace_hash, steps, switches, edges) = if mode == "serial" {
@@ -778,6 +787,25 @@ fn run_scenario(rep: &mut Report, sc: &mut Scenario, seed: u64, mode: &str, focu
             if bytes > m {
                 fail(rep, "C18", "memory-exceeded-at-quiescence", f, format!("{} holds {} bytes at quiescence, max_memory {}", d.reg_name, bytes, m), json!({"fid": d.fid}));
                 return Outcome { status: "ok" };
+            }
+        }
+        // C05 under concurrency: "never evicts while it already fits".  With nothing but plain
+        // stores in play (no limit, ttl, invalidation, predicate, oversized or failing result) the
+        // content only grows after the last eviction, so it plus *some* evicted value (the last
+        // one to go, whichever it was) must exceed max_memory - under every serialisation.
+        if let (Some(m), true) = (d.max_memory, d.limit.is_none() && d.ttl.is_none() && !d.has_cache_if && !d.has_invalidate_on && !sc.has_invalidation[fi] && sc.cond_slots[fi].is_empty() && !unique_values) {
+            let plain = calls.iter().all(|r| !r.ran_err) && !sc.progs.iter().flatten().any(|o| matches!(o, Op::Call { f: ff, big: true, .. } if *ff == fi));
+            if plain {
+                let stored: BTreeSet<u32> = calls.iter().filter(|r| r.executed).map(|r| r.slot).collect();
+                let listed: BTreeSet<u32> = l.iter().filter_map(|k| rev.get(k).copied()).collect();
+                let gone: Vec<u32> = stored.difference(&listed).copied().collect();
+                rep.count("C05", "quiescent_memory_minimality_checks", 1);
+                if let Some(biggest) = gone.iter().filter_map(|s| f.fp.get(s)).max() {
+                    if bytes + biggest <= m {
+                        fail(rep, "C05", "evicted-although-everything-fits-under-concurrency", f, format!("{}: {} bytes cached at quiescence, slots {:?} were stored and are gone although the largest of them ({} bytes) would still fit under max_memory {}", d.reg_name, bytes, gone, biggest, m), json!({"fid": d.fid}));
+                        return Outcome { status: "ok" };
+                    }
+                }
             }
         }
         // probe 1 (limit): fresh stores one at a time.  (a) FIFO/LRU: enough of them must push out
